@@ -42,6 +42,9 @@ BODIES = [
     # non-ASCII characters whose latin-1 / cp1252 bytes are also well-formed UTF-8 (C3 A9, C2 A3, C3 BC): the declared codec must still be used
     "<OFX><A><B>Ã© Â£ Ã¼</B></A></OFX>",
     "<OFX><A><B>Ã€Â¿</B></A></OFX>",
+    # text that is not in Unicode normal form C (decomposed accents, compatibility singletons): the file's characters, not their composition
+    "<OFX><A><B>Cafe\u0301 \u212b \u2126 e\u0301\u0323 \ufb01 \u1e9b\u0323</B></A></OFX>",
+    "<OFX><A><B>\u0041\u030a\u1100\u1161\u11a8 \u03a9\u0301</B></A></OFX>",
 ]
 
 
